@@ -261,12 +261,24 @@ impl C13 {
                 (vec![], T::Anon, "anonymous variable"),
             ];
             if let T::Int(i) = val { operands.push((vec![], T::Float(*i as f64), "float of equal magnitude")); }
+            // the other operand is a variable aliased to the (unbound) reported variable, in either direction
+            operands.push((vec![G::Unify(v("$S"), v("$R"))], v("$S"), "variable aliased to the unbound result variable"));
+            operands.push((vec![G::Unify(v("$R"), v("$S"))], v("$S"), "unbound result variable aliased to the operand variable"));
+            operands.push((vec![G::Unify(v("$R"), v("$S")), G::Unify(v("$S"), v("$U"))], v("$U"), "alias chain of three unbound variables"));
             for (g, _) in &fs { operands.push((vec![], g.clone(), "another function")); }
             for (pre, other, label) in operands {
                 for flip in [false, true] {
                     let goal = if flip { G::Unify(other.clone(), f.clone()) } else { G::Unify(f.clone(), other.clone()) };
                     let mut body = pre.clone(); body.push(goal);
                     cases.push(bcase(rule1(vec![v("$R")], body), 1, None, true, label));
+                    // the same with both operands as arguments of a complex term (the function is reached
+                    // in the middle of a unification of two complex terms)
+                    if !matches!(other, T::Func(..)) {
+                        let (l, r) = if flip { (other.clone(), f.clone()) } else { (f.clone(), other.clone()) };
+                        let mut body = pre.clone();
+                        body.push(G::Unify(cplx("w", vec![atom("k"), l]), cplx("w", vec![atom("k"), r])));
+                        cases.push(bcase(rule1(vec![v("$R")], body), 1, None, true, "both operands as arguments of a complex term"));
+                    }
                 }
             }
         }
